@@ -3,6 +3,7 @@ open Pmn.Session
 namespace Driver
 def opSess (args : List String) : String :=
   match args with
+  | ["geocaches"] => " ".intercalate geoCaches
   | ["writes", "setF"] => " ".intercalate (writes (.setF 0 : Op Nat Nat))
   | ["writes", "compute"] => " ".intercalate (writes (.compute : Op Nat Nat))
   | ["writes", "far"] => " ".intercalate (writes (.far 0 : Op Nat Nat))
